@@ -11,12 +11,18 @@ cp /verif/known-findings.txt "$SCRATCH/known-findings.txt"
 if [ -n "$(git -C /repo status --porcelain)" ]; then echo "refusing: /repo has local modifications or untracked files"; exit 2; fi
 trap 'git -C /repo reset -q --hard HEAD ; git -C /repo clean -fdq -- falcon-rust benchmark ; rm -rf "$SCRATCH"' EXIT
 if ! git -C /repo apply "$PATCH" 2>/dev/null; then
-    # patches written against the tree before the ntru_gen probe lines were added (hook commit 96dce0f):
-    # take math.rs from before that commit (the probes are optional for the harness), then apply
-    git -C /repo checkout b834386 -- falcon-rust/src/math.rs
-    if ! git -C /repo apply "$PATCH"; then echo "patch does not apply"; exit 2; fi
-    git -C /repo reset -q
-    echo "(applied on math.rs without the ntru_gen probe lines)"
+    if git -C /repo apply --3way "$PATCH" >/dev/null 2>&1 && ! git -C /repo diff --name-only --diff-filter=U | grep -q .; then
+        git -C /repo reset -q
+        echo "(applied with a 3-way merge)"
+    else
+        git -C /repo reset -q --hard HEAD
+        # patches written against the tree before the ntru_gen probe lines were added (hook commit 96dce0f):
+        # take math.rs from before that commit (the probes are optional for the harness), then apply
+        git -C /repo checkout b834386 -- falcon-rust/src/math.rs
+        if ! git -C /repo apply "$PATCH"; then echo "patch does not apply to this head; use tools/try_mutant_scratch.sh (it falls back to the change's base commit)"; exit 2; fi
+        git -C /repo reset -q
+        echo "(applied on math.rs without the ntru_gen probe lines)"
+    fi
 fi
 for id in "$@"; do
     start=$(date +%s)
